@@ -332,12 +332,70 @@ func (w *world) envFor(in []byte, accepted *decRes) *env {
 
 // ---------------------------------------------------------------- Coq printers
 
-func coqOpt(b []byte) string { return hxlib.CoqOpt(b != nil, hxlib.CoqBytes(b)) }
+// cb prints a byte string: short ones as a list literal, long ones as
+// (pw n (W8 w1 .. w8 (W8 .. WE)))%uint63 — see coq/run/Run_C08.v.  Within one case a long
+// string is printed once and bound by a let (interned), since tables, input and observed
+// block repeat the same strings.
+var interned = map[string]int{}
+var internDefs []string
+
+func resetIntern() { interned = map[string]int{}; internDefs = nil }
+
+// wrapLets closes the term of a case over the strings interned while it was printed
+func wrapLets(term string) string {
+	if len(internDefs) == 0 {
+		return term
+	}
+	var sb strings.Builder
+	sb.WriteString("(")
+	for i, d := range internDefs {
+		fmt.Fprintf(&sb, "let s%d := %s in ", i, d)
+	}
+	sb.WriteString(term + ")")
+	resetIntern()
+	return sb.String()
+}
+
+func cb(b []byte) string {
+	if len(b) <= 8 {
+		return hxlib.CoqBytes(b)
+	}
+	if i, ok := interned[string(b)]; ok {
+		return fmt.Sprintf("s%d", i)
+	}
+	var words []uint64
+	for i := 0; i < len(b); i += 7 {
+		j := i + 7
+		if j > len(b) {
+			j = len(b)
+		}
+		var w uint64
+		for _, x := range b[i:j] {
+			w = w<<8 | uint64(x)
+		}
+		words = append(words, w)
+	}
+	for len(words)%8 != 0 {
+		words = append(words, 0)
+	}
+	var sb strings.Builder
+	fmt.Fprintf(&sb, "(pw %d ", len(b))
+	for i := 0; i < len(words); i += 8 {
+		fmt.Fprintf(&sb, "(W8 %d %d %d %d %d %d %d %d ", words[i], words[i+1], words[i+2], words[i+3], words[i+4], words[i+5], words[i+6], words[i+7])
+	}
+	sb.WriteString("WE" + strings.Repeat(")", len(words)/8) + ")%uint63")
+	n := len(internDefs)
+	interned[string(b)] = n
+	internDefs = append(internDefs, sb.String())
+	return fmt.Sprintf("s%d", n)
+}
+
+func coqOpt(b []byte) string { return hxlib.CoqOpt(b != nil, cb(b)) }
 
 func coqBss(bss [][]byte) string {
 	items := make([]string, len(bss))
 	for i, b := range bss {
-		items[i] = hxlib.CoqBytes(b)
+		items[i] = cb(b)
 	}
 	return hxlib.CoqList(items)
 }
@@ -345,32 +403,32 @@ func coqBss(bss [][]byte) string {
 func (o *obsBlock) coq() string {
 	return fmt.Sprintf("(Build_block %s %s %s %s %s %s %s %s %s %s %s %s)",
 		hxlib.CoqZ(o.Height), hxlib.CoqZ(o.Timestamp), coqOpt(o.Proposer), coqOpt(o.Prev),
-		hxlib.CoqBytes(o.Bloom), coqOpt(o.Result), coqBss(o.Patch), coqBss(o.Normal),
-		coqOpt(o.NVH), hxlib.CoqBytes(o.Votes), coqOpt(o.NSFilter), coqOpt(o.Digest))
+		cb(o.Bloom), coqOpt(o.Result), coqBss(o.Patch), coqBss(o.Normal),
+		coqOpt(o.NVH), cb(o.Votes), coqOpt(o.NSFilter), coqOpt(o.Digest))
 }
 
 func (e *env) coq() string {
 	var hs, rs, ts, vs, ds, res, bs []string
 	for _, x := range e.H {
-		hs = append(hs, fmt.Sprintf("(%s, %s)", hxlib.CoqBytes(x[0]), hxlib.CoqBytes(x[1])))
+		hs = append(hs, fmt.Sprintf("(%s, %s)", cb(x[0]), cb(x[1])))
 	}
 	for _, x := range e.Root {
 		rs = append(rs, fmt.Sprintf("(%s, %s)", coqBss(x.l), coqOpt(x.h)))
 	}
 	for _, x := range e.Tx {
-		ts = append(ts, fmt.Sprintf("(%s, %s)", hxlib.CoqBytes(x.in), hxlib.CoqOpt(x.ok, hxlib.CoqBytes(x.out))))
+		ts = append(ts, fmt.Sprintf("(%s, %s)", cb(x.in), hxlib.CoqOpt(x.ok, cb(x.out))))
 	}
 	for _, x := range e.Votes {
-		vs = append(vs, fmt.Sprintf("(%s, %s)", coqOpt(x.in), hxlib.CoqOpt(x.ok, hxlib.CoqBytes(x.out))))
+		vs = append(vs, fmt.Sprintf("(%s, %s)", coqOpt(x.in), hxlib.CoqOpt(x.ok, cb(x.out))))
 	}
 	for _, x := range e.Digest {
-		ds = append(ds, fmt.Sprintf("(%s, %s)", hxlib.CoqBytes(x.in), hxlib.CoqOpt(x.ok, coqOpt(x.filter))))
+		ds = append(ds, fmt.Sprintf("(%s, %s)", cb(x.in), hxlib.CoqOpt(x.ok, coqOpt(x.filter))))
 	}
 	for _, x := range e.Result {
 		res = append(res, fmt.Sprintf("(%s, %s)", coqOpt(x.in), hxlib.CoqOpt(x.ok, coqOpt(x.out))))
 	}
 	for _, x := range e.Bloom {
-		bs = append(bs, fmt.Sprintf("(%s, %s)", coqOpt(x.in), hxlib.CoqBytes(x.out)))
+		bs = append(bs, fmt.Sprintf("(%s, %s)", coqOpt(x.in), cb(x.out)))
 	}
 	return fmt.Sprintf("(Build_env %s %s %s %s %s %s %s)", hxlib.CoqList(hs), hxlib.CoqList(rs),
 		hxlib.CoqList(ts), hxlib.CoqList(vs), hxlib.CoqList(ds), hxlib.CoqList(res), hxlib.CoqList(bs))
@@ -382,6 +440,7 @@ func (e *env) coq() string {
 type expect struct {
 	Reject  bool   `json:"reject,omitempty"`   // the input must not be accepted
 	SameAs  string `json:"same_as,omitempty"`  // hex of an honest encoding: accepted, same id and contents
+	SameIf  string `json:"same_if,omitempty"`  // hex of an honest encoding: if accepted, same id and contents
 	NotID   string `json:"not_id,omitempty"`   // hex id: accepted blocks must have another id
 	Accept  bool   `json:"accept,omitempty"`   // consistent crafted block: must be accepted
 	Comment string `json:"comment,omitempty"`
@@ -518,6 +577,9 @@ func (w *world) oracle(in []byte, ex expect) (string, *decRes) {
 	_ = r3.bd.MarshalBody(&bb3)
 	if !bytes.Equal(hb3.Bytes(), hb.Bytes()) || !bytes.Equal(bb3.Bytes(), bb.Bytes()) {
 		return "re-encoding twice gives different bytes", r
+	}
+	if ex.SameAs == "" && ex.SameIf != "" {
+		ex.SameAs = ex.SameIf
 	}
 	if ex.SameAs != "" {
 		orig := unhex(ex.SameAs)
